@@ -444,6 +444,11 @@ def _scalar_literal(v):
     return False
 
 
+def _membership_table(v):
+    """[A, B] / (A, "x"): a list or tuple of names and scalars - inlined only where it is tested for membership or iterated."""
+    return isinstance(v, (ast.List, ast.Tuple)) and v.elts and all(isinstance(x, ast.Name) or _scalar_literal(x) for x in v.elts)
+
+
 class _Inline(ast.NodeTransformer):
     def __init__(self, values):
         self.values = values
@@ -512,6 +517,22 @@ def inline_new_constants(cur_trees, pkg="shexer"):
                 name = st.targets[0].id
                 if name not in ref_names and count[name] == 1 and name not in globs and _scalar_literal(st.value):
                     vals[name] = st.value
+                elif name not in ref_names and count[name] == 1 and name not in globs and _membership_table(st.value):
+                    # every use in the package must be `x in NAME` / `for x in NAME`
+                    uses_ok = True
+                    for t2 in cur_trees.values():
+                        pm = {}
+                        for p_ in ast.walk(t2):
+                            for c_ in ast.iter_child_nodes(p_):
+                                pm[c_] = p_
+                        for n2 in ast.walk(t2):
+                            if isinstance(n2, ast.Name) and n2.id == name and isinstance(n2.ctx, ast.Load):
+                                par = pm.get(n2)
+                                ok2 = (isinstance(par, ast.Compare) and len(par.ops) == 1 and isinstance(par.ops[0], (ast.In, ast.NotIn))
+                                       and par.comparators[0] is n2) or (isinstance(par, (ast.For, ast.comprehension)) and par.iter is n2)
+                                uses_ok = uses_ok and ok2
+                    if uses_ok:
+                        vals[name] = st.value
         if vals:
             per_module[m] = vals
     for m, vals in per_module.items():
@@ -566,12 +587,52 @@ class _Lower(ast.NodeTransformer):
             ast.copy_location(n.target, k)
             n.iter = it.func.value
             n.body = [read] + n.body
+        elif isinstance(it, ast.Call) and isinstance(it.func, ast.Attribute) and it.func.attr == "values" and not it.args and not it.keywords \
+                and isinstance(n.target, ast.Name) and _pure_path(it.func.value) and not n.orelse:
+            # `for v in D.values()` reads the same entries: `for k in D: v = D[k]` with a key nobody else uses
+            import copy
+            key = "_key_of_%s_%d" % (n.target.id, n.lineno)
+            read = ast.Assign(targets=[ast.Name(n.target.id, ast.Store())],
+                              value=ast.Subscript(value=copy.deepcopy(it.func.value), slice=ast.Name(key, ast.Load()), ctx=ast.Load()))
+            ast.copy_location(read, n)
+            for x in ast.walk(read):
+                ast.copy_location(x, n.target)
+            new_t = ast.Name(key, ast.Store())
+            ast.copy_location(new_t, n.target)
+            n.target = new_t
+            n.iter = it.func.value
+            n.body = [read] + n.body
         return n
+
+
+class _LoopGuards(ast.NodeTransformer):
+    """In a loop body, `if c: continue` followed by REST is `if not c: REST` (the structured form the code base uses and the
+    loop rules read: "nothing leaves the loop early" is about items that are skipped without being looked at)."""
+    def _body(self, stmts):
+        from .canon import negate
+        out = []
+        for i, st in enumerate(stmts):
+            if isinstance(st, ast.If) and not st.orelse and len(st.body) == 1 and isinstance(st.body[0], ast.Continue) and stmts[i + 1:]:
+                rest = self._body(stmts[i + 1:])
+                new = ast.If(test=negate(st.test), body=rest, orelse=[])
+                ast.copy_location(new, st)
+                out.append(new)
+                return out
+            out.append(st)
+        return out
+
+    def visit_For(self, n):
+        self.generic_visit(n)
+        n.body = self._body(n.body)
+        return n
+
+    visit_While = visit_For
 
 
 def lower_idioms(cur_trees):
     for t in cur_trees.values():
         _Lower().visit(t)
+        _LoopGuards().visit(t)
         ast.fix_missing_locations(t)
 
 
